@@ -258,7 +258,16 @@ def run(ctx: Ctx) -> None:
     for d in dialects:
         for i in range(0, len(ident), 100):
             units.append(("parse", d, ident[i:i + 100]))
+    # trees returned by parse_one for the core grammar in every dialect
+    from vlib.grammar_core import statements
+    for d in ([""] + corpus.all_dialects() if not quick else ["", "bigquery", "snowflake", "tsql", "clickhouse", "oracle"]):
+        k1 = [x for c, x, t in statements(d, 1)]
+        for i in range(0, len(k1), 150):
+            units.append(("parse", d, k1[i:i + 150]))
     cases = corpus.optimizer_cases()
+    from vlib.grammar_exec import queries as exec_queries
+    from vlib.grammar_exec import SCHEMA as EXEC_SCHEMA
+    cases = cases + [(x, "duckdb", EXEC_SCHEMA) for c, x, t in exec_queries(2, opt_extras=True)][::(3 if quick else 1)]
     for i in range(0, len(cases), 25):
         units.append(("rules", cases[i:i + 25]))
     res = ctx.run_shards(worker, ctx.jobs * 6, units, quick, rules)
